@@ -49,6 +49,8 @@ struct Model {
     gutter: bool,
     /// split into several doc attributes (several `///` lines) instead of one
     lines: usize,
+    /// empty `///` lines in front of the text (a paragraph break at the top)
+    blank_lead: usize,
 }
 
 fn build_doc(units: &[usize]) -> (String, usize) {
@@ -72,7 +74,8 @@ fn render(m: &Model) -> String {
         } else {
             m.doc.clone()
         };
-        let mut docs = vec![Doc { text, style: m.style }];
+        let mut docs: Vec<Doc> = (0..m.blank_lead).map(|_| Doc { text: String::new(), style: DocStyle::Line }).collect();
+        docs.push(Doc { text, style: m.style });
         for k in 1..m.lines {
             docs.push(Doc { text: format!(" extra line {k} ZQX9{:03}", k), style: DocStyle::Line });
         }
@@ -264,7 +267,7 @@ pub fn run(ctx: &Ctx) -> (Spec, Report) {
     let n_exh = seqs.len();
     let n = n_exh + ctx.tier.pick(4000, 40_000);
     // doc-free twin definitions per language
-    let twin_src = render(&Model { units: vec![], position: 99, style: DocStyle::Line, doc: String::new(), n_sentinels: 0, lines: 1, gutter: false });
+    let twin_src = render(&Model { units: vec![], position: 99, style: DocStyle::Line, doc: String::new(), n_sentinels: 0, lines: 1, blank_lead: 0, gutter: false });
     let mut twin_defs: Vec<(LangId, BTreeSet<String>)> = vec![];
     {
         let files = crate::sut::single_file(&twin_src);
@@ -288,7 +291,7 @@ pub fn run(ctx: &Ctx) -> (Spec, Report) {
             let units: Vec<usize> = if i < n_exh { seqs_ref[i].clone() } else { (0..rng.range(1, 12)).map(|_| rng.below(nu)).collect() };
             let (doc, n_sentinels) = build_doc(&units);
             let style = *rng.pick(&[DocStyle::Line, DocStyle::Block, DocStyle::Attr]);
-            let m = Model { units, position: if i < n_exh { i % POSITIONS.len() } else { rng.below(POSITIONS.len()) }, style, doc, n_sentinels, lines: if rng.chance(1, 3) { rng.range(2, 3) } else { 1 }, gutter: rng.coin() };
+            let m = Model { units, position: if i < n_exh { i % POSITIONS.len() } else { rng.below(POSITIONS.len()) }, style, doc, n_sentinels, lines: if rng.chance(1, 3) { rng.range(2, 3) } else { 1 }, blank_lead: if rng.chance(1, 4) { rng.range(1, 2) } else { 0 }, gutter: rng.coin() };
             let src = render(&m);
             // package shapes and Swift / Go settings vary; the type prefix stays empty because the undocumented twin the
             // definitions are compared with is generated once, without one
@@ -307,7 +310,7 @@ pub fn run(ctx: &Ctx) -> (Spec, Report) {
     rep.count("exhaustive_unit_sequences", n_exh as u64);
     let spec = Spec {
         level: "exploration",
-        rule: format!("doc strings built from the units {{newline, */, /*, //, \"\"\", ''', backslash, #, backtick, plain text, \\u, \\x, \\N{{, \\\"\"\", \"\"\"\", \", **/, //nolint:gosec, a URL with a port, # type: ignore}} with a sentinel after every unit: all {n_exh} sequences of length 1-3 (positions cycled), then random sequences up to length 12; written as ///, /** */ (plain or in gutter style with bare ` *` paragraph lines) or #[doc = \"..\"], optionally followed by further doc lines; attached to type, field, unit-enum variant, tagged-enum variant, struct-variant field, alias, newtype struct or unit-enum type; 6 languages; every sentinel occurrence in the output is classified by the language's tokeniser (CPython tokenize/ast for Python) and must lie in a comment/docstring; the output must tokenise, parse and define exactly what the doc-free twin defines; distinct = (language, position, doc spelling, unit sequence)"),
+        rule: format!("doc strings built from the units {{newline, */, /*, //, \"\"\", ''', backslash, #, backtick, plain text, \\u, \\x, \\N{{, \\\"\"\", \"\"\"\", \", **/, //nolint:gosec, a URL with a port, # type: ignore}} with a sentinel after every unit: all {n_exh} sequences of length 1-3 (positions cycled), then random sequences up to length 12; written as ///, /** */ (plain or in gutter style with bare ` *` paragraph lines) or #[doc = \"..\"], optionally preceded by empty `///` lines and followed by further doc lines; attached to type, field, unit-enum variant, tagged-enum variant, struct-variant field, alias, newtype struct or unit-enum type; 6 languages; every sentinel occurrence in the output is classified by the language's tokeniser (CPython tokenize/ast for Python) and must lie in a comment/docstring; the output must tokenise, parse and define exactly what the doc-free twin defines; distinct = (language, position, doc spelling, unit sequence)"),
         assumptions: vec!["comment/docstring spans come from this harness's lexers and from CPython".into()],
         exhaustive: Some(true),
     };
